@@ -512,6 +512,17 @@ func (i *Instance) ConnectNodes(nodeOutId, outPortName, nodeInId, inPortName str
 	outPortVals := refutil.CallFuncValuesOfType(outNode, outPortName)
 
 	ref := outPortVals[0].(nodes.NodeOutputReference)
+
+	// Nodes evaluate their inputs recursively, so a connection that closes a
+	// loop makes the next evaluation recurse until the stack overflows, which
+	// takes the whole process down (it can't be recovered from).
+	if dependsOn(outNode, inNode, make(map[nodes.Node]struct{})) {
+		panic(fmt.Errorf(
+			"connecting %q to input %q of %q would create a cycle",
+			nodeOutId, inPortName, nodeInId,
+		))
+	}
+
 	inNode.SetInput(
 		inPortName,
 		nodes.Output{
@@ -519,6 +530,24 @@ func (i *Instance) ConnectNodes(nodeOutId, outPortName, nodeInId, inPortName str
 		},
 	)
 	i.incModelVersion()
+}
+
+// dependsOn reports whether target is node itself or reachable from node by
+// following dependencies.
+func dependsOn(node, target nodes.Node, visited map[nodes.Node]struct{}) bool {
+	if node == target {
+		return true
+	}
+	if _, ok := visited[node]; ok {
+		return false
+	}
+	visited[node] = struct{}{}
+	for _, dep := range node.Dependencies() {
+		if dependsOn(dep.Dependency(), target, visited) {
+			return true
+		}
+	}
+	return false
 }
 
 // PRODUCERS ==================================================================
